@@ -237,8 +237,11 @@ fn encode_block(
     if let Some(encoder) = block_content_encoder_map.get_data_series_encoder(block_content_id) {
         match encoder {
             Some(Encoder::Fqzcomp) => {
-                if all_quality_scores_stored_as_arrays {
-                    let lens: Vec<_> = records.iter().map(|r| r.read_length).collect();
+                let lens: Vec<_> = records.iter().map(|r| r.read_length).collect();
+
+                // Read base features also store a quality score in this series; fqzcomp can only
+                // be used when the block is exactly the concatenation of the per-record arrays.
+                if all_quality_scores_stored_as_arrays && lens.iter().sum::<usize>() == src.len() {
                     let data = fqzcomp::encode(&lens, src)?;
 
                     Ok(Block {
